@@ -146,6 +146,17 @@ def run(ctx):
                 ctx.problem('oracle', 'property fails on the implementation: ' + why, inputs=js, failing_input_found=True)
                 break
     from harness.props import lattice
+    if True:
+        import sageopt as so
+        from sageopt.relaxations import sage_sigs as ss_
+        y_ = so.standard_sig_monomials(2)
+        f_ = y_[0] ** 2 + y_[1] ** 2 - y_[0] * y_[1] + y_[0] ** -1
+        bl = [('sig_relaxation (ell=%d)' % l_, fm, (lambda fm=fm, l_=l_: ss_.sig_relaxation(f_, form=fm, ell=l_))) for fm in ('primal', 'dual') for l_ in (0, 1)]
+        why_s, ns_ = lattice.scripted_no_certificate(bl, ctx.rng)
+        ctx.evaluations += ns_
+        ctx.suites['scripted_solver_outcomes'] = {'cases': ns_, 'failure': why_s}
+        if why_s:
+            ctx.problem('oracle', 'property fails on the implementation: ' + why_s, inputs={'suite': 'scripted_solver_outcomes'}, failing_input_found=True)
     why, nsolves = lattice.lattice_c03(ctx)
     ctx.evaluations += nsolves
     ctx.suites['option_level_lattice'] = {'solves': nsolves, 'failure': why}
